@@ -2,12 +2,15 @@
    proto current|swaponly|repaired → ok            (choose the protocol; default current = the code as it is)
    reset                          → ok
    create|open|tryopen|openro <h> <p> → ok | fail  (API-level call by handle id h on path p, nothing interleaved)
-   put|commit|vacuum|drop|kill <h> → ok            (drop = Drop for Memvid: commit when dirty, then close;
+   put <h> → ok | fail   (ensure_writable — an upgrade when the handle is read-only — then the append)
+   downgrade <h> → ok    (Memvid::downgrade_to_shared, nothing interleaved)
+   commit|vacuum|drop|kill <h> → ok            (drop = Drop for Memvid: commit when dirty, then close;
                                                      kill = descriptors closed without commit)
    m <step> <args…>               → ok             (one micro step: mkfile p | openfd h p 0/1 | openfd2 h |
                                                      flockex h | flocksh h | validate h | put h | stage h |
-                                                     rename h | finish h | abort h | drop h)
-   obs <h>   → none | phase=<ph> lockOnPath=<0/1> fileOnPath=<0/1> held=<ex|sh|no> nlocks=<n> dirty=<0/1> pino=<i|-> lino=<i> fino=<i>
+                                                     rename h | finish h | abort h | drop h |
+                                                     dgunlock h | dglock h | dgfail h | ugunlock h | uglock h | ugfail h)
+   obs <h>   → none | phase=<ph> mode=<ex|sh|none> ro=<0/1> lockOnPath=<0/1> fileOnPath=<0/1> held=<ex|sh|no> nlocks=<n> dirty=<0/1> pino=<i|-> lino=<i> fino=<i>
    probe <p> → granted | refused | nofile           (LOCK_EX|LOCK_NB on a fresh descriptor of the path)
    pino <p>  → <inode the path names> | -
    writers <p> → <number of live writable handles for the path> -/
@@ -23,6 +26,7 @@ structure DSt where
 def showPhase : Phase → String
   | .opening => "opening" | .opened => "opened" | .locked => "locked" | .live => "live"
   | .reader => "reader" | .staged => "staged" | .renamed => "renamed"
+  | .downgrading => "downgrading" | .upgrading => "upgrading"
 
 def b01 (b : Bool) : String := if b then "1" else "0"
 
@@ -36,7 +40,9 @@ def obs (s : State) (h : Nat) : String :=
         else if s.locks.contains ⟨h, hd.lockSer, hd.lockIno, .sh⟩ then "sh" else "no"
       let nl := (s.locks.filter fun e => e.owner == h).length
       let pinS := match pin with | some i => toString i | none => "-"
-      s!"phase={showPhase hd.phase} lockOnPath={b01 (pin == some hd.lockIno)} fileOnPath={b01 (pin == some hd.fileIno)} held={held} nlocks={nl} dirty={b01 hd.dirty} pino={pinS} lino={hd.lockIno} fino={hd.fileIno}"
+      let md := match hd.mode with | some .ex => "ex" | some .sh => "sh" | none => "none"
+      let ro := hd.phase == .reader || hd.phase == .upgrading
+      s!"phase={showPhase hd.phase} mode={md} ro={b01 ro} lockOnPath={b01 (pin == some hd.lockIno)} fileOnPath={b01 (pin == some hd.fileIno)} held={held} nlocks={nl} dirty={b01 hd.dirty} pino={pinS} lino={hd.lockIno} fino={hd.fileIno}"
 
 def okFail (b : Bool) : String := if b then "ok" else "fail"
 
@@ -58,13 +64,20 @@ def microStep (ws : List String) : Option Step :=
   | ["finish", h] => h.toNat?.map .finish
   | ["abort", h] => h.toNat?.map .abort
   | ["drop", h] => h.toNat?.map .drop
+  | ["dgunlock", h] => h.toNat?.map .dgUnlock
+  | ["dglock", h] => h.toNat?.map .dgLock
+  | ["dgfail", h] => h.toNat?.map .dgFail
+  | ["ugunlock", h] => h.toNat?.map .ugUnlock
+  | ["uglock", h] => h.toNat?.map .ugLock
+  | ["ugfail", h] => h.toNat?.map .ugFail
   | _ => none
 
 def stepHandle : Step → Option Nat
   | .mkfile _ => none
   | .openFd h _ _ => some h
   | .openFd2 h | .flockEx h | .flockSh h | .validate h | .put h | .stage h | .rename h
-  | .finish h | .abort h | .drop h => some h
+  | .finish h | .abort h | .drop h | .dgUnlock h | .dgLock h | .dgFail h | .ugUnlock h | .ugLock h
+  | .ugFail h => some h
 
 def dstep (d : DSt) (ws : List String) : DSt × String :=
   match ws with
@@ -93,7 +106,10 @@ def dstep (d : DSt) (ws : List String) : DSt × String :=
   | [op, a] =>
       match a.toNat? with
       | some a =>
-          if op == "put" then ({ d with s := step d.pr d.s (.put a) }, "ok")
+          if op == "put" then
+            let r := apiPut d.pr d.s a
+            ({ d with s := r.1 }, okFail r.2)
+          else if op == "downgrade" then ({ d with s := apiDowngrade d.pr d.s a }, "ok")
           else if op == "commit" || op == "vacuum" then ({ d with s := apiCommit d.pr d.s a }, "ok")
           else if op == "drop" then ({ d with s := apiDrop d.pr d.s a }, "ok")
           else if op == "kill" then ({ d with s := step d.pr d.s (.drop a) }, "ok")
